@@ -210,7 +210,8 @@ Proof.
   cbn [rstep fst snd] in *. rewrite E1, E2 in *. cbn [andb negb fst snd] in *.
   set (t' := mkTables (ckeys t) (chains t) (if existsb (fun p => (fst p =? run) && (snd p =? ty)) (summ t) then summ t else summ t ++ [(run, ty)])
                       (data t ++ [(id, ty, run)])) in *.
-  set (cs' := mkCaches (rcache cs) (match scache cs with Some _ => Some [] | None => None end)) in *.
+  remember (snd (record_of t cs run)) as cs1.
+  set (cs' := mkCaches (rcache cs1) (match scache cs1 with Some _ => Some [] | None => None end)) in *.
   cbn [rstep]. destruct (query_datasets_spec t' ty run cs' W C) as [Q _].
   destruct (query_datasets t' cs' ty run) as [r cs2]. cbn [fst snd] in *. subst r.
   assert (Ch : chains t' = chains t) by reflexivity. assert (Ck : key_of t' run = key_of t run) by reflexivity.
